@@ -133,6 +133,7 @@ func (vc *VC) named(fr *Frame, v ssa.Value, t Term) Term {
 }
 
 func (vc *VC) instr(fr *Frame, st *State, ins ssa.Instruction) {
+	vc.curState = st
 	switch x := ins.(type) {
 	case *ssa.DebugRef:
 		return
